@@ -27,6 +27,8 @@ import (
 	erc20contracts "github.com/teleport-network/teleport/syscontracts/erc20"
 	govcontract "github.com/teleport-network/teleport/syscontracts/gov"
 	stakingcontract "github.com/teleport-network/teleport/syscontracts/staking"
+	transfertypes "github.com/cosmos/ibc-go/v3/modules/apps/transfer/types"
+
 	aggregatetypes "github.com/teleport-network/teleport/x/aggregate/types"
 	rvestingtypes "github.com/teleport-network/teleport/x/rvesting/types"
 	bsctypes "github.com/teleport-network/teleport/x/xibc/clients/light-clients/bsc/types"
@@ -43,6 +45,9 @@ import (
 )
 
 const votingPeriod = 30 * time.Second
+
+// ibcVoucher is the denomination under which "uatom" arrives over transfer/channel-0.
+var ibcVoucher = transfertypes.ParseDenomTrace(transfertypes.GetDenomPrefix("transfer", "channel-0") + "uatom").IBCDenom()
 
 // Scenario records chain A (pure ABCI from genesis) while chain B plays the counterparty.
 type Scenario struct {
@@ -248,8 +253,8 @@ func BuildScenario(seed int64, pow bool) (*Scenario, error) {
 		cdc.MustUnmarshalJSON(gs[banktypes.ModuleName], &bg)
 		for i := range bg.Balances {
 			if bg.Balances[i].Address == w.Users[0].Bech32() {
-				bg.Balances[i].Coins = bg.Balances[i].Coins.Add(sdk.NewInt64Coin("acoin", 1_000_000), sdk.NewInt64Coin("bcoin", 1_000_000))
-				bg.Supply = bg.Supply.Add(sdk.NewInt64Coin("acoin", 1_000_000), sdk.NewInt64Coin("bcoin", 1_000_000))
+				bg.Balances[i].Coins = bg.Balances[i].Coins.Add(sdk.NewInt64Coin("acoin", 1_000_000), sdk.NewInt64Coin("bcoin", 1_000_000), sdk.NewInt64Coin(ibcVoucher, 1_000_000))
+				bg.Supply = bg.Supply.Add(sdk.NewInt64Coin("acoin", 1_000_000), sdk.NewInt64Coin("bcoin", 1_000_000), sdk.NewInt64Coin(ibcVoucher, 1_000_000))
 			}
 		}
 		gs[banktypes.ModuleName] = cdc.MustMarshalJSON(&bg)
@@ -392,6 +397,10 @@ func BuildScenario(seed int64, pow bool) (*Scenario, error) {
 	coinMeta := banktypes.Metadata{Description: "a coin", Base: "acoin", Display: "coin", Name: "acoin", Symbol: "ACN",
 		DenomUnits: []*banktypes.DenomUnit{{Denom: "acoin", Exponent: 0}, {Denom: "coin", Exponent: 18}}}
 	sc.gov(aggregatetypes.NewRegisterCoinProposal("t", "d", coinMeta), "register coin", true)
+	// an ICS-20 voucher denomination registered as well (used by the receive-hook probe after the recording)
+	ibcMeta := banktypes.Metadata{Description: "atom via channel-0", Base: ibcVoucher, Display: "ibcatomdisp", Name: "atom via channel-0", Symbol: "ibcATOM",
+		DenomUnits: []*banktypes.DenomUnit{{Denom: ibcVoucher, Exponent: 0}, {Denom: "mibcatom", Exponent: 3}, {Denom: "ibcatomdisp", Exponent: 18}}}
+	sc.gov(aggregatetypes.NewRegisterCoinProposal("t", "d", ibcMeta), "register ibc voucher coin", true)
 	if pair, ok := findPair(a, "acoin"); ok {
 		bMeta := banktypes.Metadata{Description: "b coin", Base: "bcoin", Display: "bcoin", Name: "bcoin", Symbol: "BCN",
 			DenomUnits: []*banktypes.DenomUnit{{Denom: "bcoin", Exponent: 0}}}
